@@ -28,7 +28,18 @@ CANARIES = [
     ('txfree-off-by-one', 'C10', 'src/freelist.rs', 'for id in page_id..(page_id + num_pages) {', 'for id in page_id..(page_id + num_pages - 1) {'),
     ('free-wrong-tx', 'C10', 'src/freelist.rs', 'self.pending_pages.entry(tx_id)', 'self.pending_pages.entry(tx_id - tx_id % 2)'),
     ('init-skip-first', 'C10', 'src/freelist.rs', 'free_pages.iter().for_each(|id| {', 'free_pages.iter().skip(1).for_each(|id| {'),
+    ('meta-select-older', 'C12', 'src/db.rs', 'if meta1.tx_id > meta2.tx_id {', 'if meta1.tx_id < meta2.tx_id {'),
+    ('meta-no-type-guard', 'C12', 'src/db.rs', 'let meta1 = if page1.page_type == Page::TYPE_META && page1.$func().valid() {', 'let meta1 = if page1.$func().valid() {'),
+    ('meta-drop-single', 'C12', 'src/db.rs', '(Some(meta1), None) => Some(meta1),', '(Some(_m), None) => None,'),
+    ('meta-trust-unchecked', 'C12', 'src/db.rs', 'let meta2 = if page2.page_type == Page::TYPE_META && page2.$func().valid() {', 'let meta2 = if page2.page_type == Page::TYPE_META {'),
+    ('hash-drop-txid', 'C12', 'src/meta.rs', '        hasher.write(&self.tx_id.to_be_bytes());\n', ''),
+    ('hash-swap-fields', 'C15', 'src/meta.rs', '        hasher.write(&self.num_pages.to_be_bytes());\n        hasher.write(&self.freelist_page.to_be_bytes());\n', '        hasher.write(&self.freelist_page.to_be_bytes());\n        hasher.write(&self.num_pages.to_be_bytes());\n'),
+    ('oldmeta-from-drop-txid', 'C15', 'src/meta.rs', 'tx_id: val.tx_id,', 'tx_id: 0,'),
+    ('valid-always', 'C12', 'src/meta.rs', '        self.hash == self.hash_self()\n    }\n\n    pub(crate) fn hash_self(&self) -> u64 {', '        self.hash == self.hash_self() || self.hash == 0\n    }\n\n    pub(crate) fn hash_self(&self) -> u64 {'),
 ]
+
+
+KANI_CANARIES = set()
 
 
 def run_canary(c, keep=False):
@@ -44,7 +55,7 @@ def run_canary(c, keep=False):
             return dict(name=name, property=prop, status='not-applicable', detail='pattern found %d times' % t.count(frm))
         open(p, 'w').write(t.replace(frm, to))
         env = dict(os.environ, VERIF_REPO=d, VERIF_BUILD=os.path.join(d, 'build'), VERIF_EVIDENCE_DIR=os.path.join(d, 'evidence'))
-        r = subprocess.run([os.path.join(V, 'check'), prop, '--tier', 'quick', '--no-kani', '--no-canaries'],
+        r = subprocess.run([os.path.join(V, 'check'), prop, '--tier', 'quick', '--no-canaries'] + ([] if c[0] in KANI_CANARIES else ['--no-kani']),
                            env=env, capture_output=True, text=True, timeout=1800)
         failed = [l.strip() for l in r.stdout.split('\n') if 'failed obligation' in l]
         st = {0: 'SURVIVED', 1: 'killed', 2: 'undecided'}.get(r.returncode, 'error')
